@@ -77,10 +77,15 @@ func (s *Sim) CheckRewardProportionality(rt *rapid.T) {
 					if Lp.Cmp(Lq) == 0 && rP.Cmp(rQ) != 0 {
 						rt.Fatalf("positions %d and %d have identical range, liquidity and lifetime but claimable %s of %s differ: %s vs %s [history %v]", p.PositionId, q.PositionId, kind, d, rP, rQ, s.Hist)
 					}
-					// |rQ*Lp - rP*Lq| <= 2 (Lp + Lq)  (each claimable amount is a truncation of growth x liquidity)
+					// |rQ*Lp - rP*Lq| <= k (Lp + Lq): each claimable amount is a sum of truncations of growth x liquidity - one for
+					// spread rewards, one per authorised uptime accumulator (four here) for incentives - plus one for the scaling
+					k := int64(2)
+					if kind != "spread rewards" {
+						k = 5
+					}
 					lhs := new(big.Int).Sub(new(big.Int).Mul(rQ, Lp), new(big.Int).Mul(rP, Lq))
 					lhs.Abs(lhs)
-					rhs := new(big.Int).Mul(big.NewInt(2), new(big.Int).Add(Lp, Lq))
+					rhs := new(big.Int).Mul(big.NewInt(k), new(big.Int).Add(Lp, Lq))
 					if lhs.Cmp(rhs) > 0 {
 						rt.Fatalf("positions %d (liquidity %s) and %d (liquidity %s) share range and lifetime but claimable %s of %s are not proportional: %s vs %s [history %v]", p.PositionId, p.Liquidity, q.PositionId, q.Liquidity, kind, d, rP, rQ, s.Hist)
 					}
